@@ -337,7 +337,7 @@ CLAIMED['C16'] = dict(
                   "keys, the two linear scans, the wildcard regex) and of index, under a hand-written model of the "
                   "apply_meta wrappers; extracted-model/implementation differential run; a linear-scan oracle on "
                   "the implementation",
-        text="Machine-checked (Coq 8.16, 34 theorems in coq/Props/C16.v, all closed under the global context), "
+        text="Machine-checked (Coq 8.16, 39 theorems in coq/Props/C16.v, all closed under the global context), "
              "for vectors/tables of ANY size and all scalar cells. FULL: C16_bisect_loop (CPython's bisect_right "
              "loop returns the partition point of any defined monotone test; fuel hi-lo+1 suffices), C16_bisect "
              "(on cells whose ExcelCmp keys are sorted by the model's <= between lo and hi: a[k] <= v before the "
@@ -370,7 +370,10 @@ CLAIMED['C16'] = dict(
              "= known finding short-result-range); C16_transpose (VLOOKUP on t = HLOOKUP on transpose t, all k "
              "incl. out of range); C16_bounds_vlookup/hlookup_low (k<=0: #VALUE!), _high (k beyond: #REF!), "
              "C16_bounds_in_table (otherwise #N/A or a cell of column k: never a cell outside); C16_index_cell / "
-             "_negative (#VALUE!) / _beyond (#REF!). KEPT (weaker, but for unsorted vectors too): "
+             "_negative (#VALUE!) / _beyond (#REF!); C16_wrapped_match / _vlookup / _hlookup / _lookup (the model of the "
+             "apply_meta wrappers hands a scalar non-error lookup value with an integer index / match type and a "
+             "logical range_lookup through to the regenerated body unchanged, whatever the table holds) and "
+             "C16_error_lookup_value (an error-code lookup value is returned). KEPT (weaker, but for unsorted vectors too): "
              "C16_match1_partial (a position returned by match type 1 holds a non-blank cell of v's type), "
              "C16_match_m1_partial (a position returned by match type -1 holds a non-error cell of v's type that "
              "is >= v); no clause of the property is left partial. REFUTED in the faithful "
@@ -378,8 +381,8 @@ CLAIMED['C16'] = dict(
              "blank cell as the number 0, type 1 does not), Refuted/C16_wildcard_tilde.v ('a~*' does not escape "
              "the asterisk), Refuted/C16_lookup_short.v (a result vector shorter than the search vector: IndexError "
              "where INDEX gives #REF!). CORRESPONDENCE-ONLY (no theorem): LOOKUP with a 2-D or non-list result range "
-             "(#N/A), the apply_meta wrappers (CSE lookup value, number coercion of the index, error "
-             "propagation), INDEX with a 0 index (whole row/column), match_type coercion. "
+             "(#N/A), the apply_meta wrappers on other argument shapes (CSE lookup value, number coercion of a "
+             "non-integer index, error codes in the index), INDEX with a 0 index (whole row/column), match_type coercion. "
              "Outside the model (Unmodelled, oracle "
              "only): wildcard patterns containing other regex metacharacters. Every quick run compares the "
              "extracted model with the real functions called through apply_meta on ~80k distinct calls (MATCH "
